@@ -159,7 +159,7 @@ def words (s : String) : List String := (s.splitOn " ").filter (· ≠ "")
 
 /-- split a body into `;`-separated groups of tokens -/
 def splitOps (s : String) : List (List String) :=
-  ((s.splitOn ";").map words).filter (· ≠ [])
+  ((s.splitOn ";").map words).filter (fun t => t ≠ [] ∧ t ≠ ["-"])
 
 def parseEncOp (toks : List String) : Option Enc.EncOp :=
   match toks with
